@@ -346,6 +346,16 @@ def infeasible_edges(body):
             for v, tb in t["targets"]:
                 if v == 0:
                     out.add((b, tb))
+        elif c[0] == "agg" and c[1] in ("core::option::Option", "core::result::Result") and c[2] in ("None", "Some", "Ok", "Err"):
+            # discriminant of a value that is a literal variant (e.g. the `None::<T>` prologue
+            # emitted by #[async_trait]): only the matching arm is feasible
+            idx = {"None": 0, "Some": 1, "Ok": 0, "Err": 1}[c[2]]
+            vals = [v for v, _ in t["targets"]]
+            for v, tb in t["targets"]:
+                if v != idx:
+                    out.add((b, tb))
+            if idx in vals:
+                out.add((b, t["otherwise"]))
     body._infeasible = out
     return out
 
@@ -840,3 +850,55 @@ def call_result_honoured(ctx, body, b, rule, what, spec=None):
     rp = body.render_path(path)
     ctx.violate(rule, body.path, "%s: the call's result can be ignored" % what, site=body.loc(b), key="%s|%s|ignored" % (rule, body.path), path=rp)
     return False
+
+
+# ---------------------------------------------------------------------------- liveness helpers (engine O)
+def holder_locals(body, seeds):
+    """Locals that (transitively) receive the value of one of the seed places by move/copy.
+    seeds: set of (local, proj-tuple)."""
+    hold = set()
+    frontier = set(seeds)
+    changed = True
+    while changed:
+        changed = False
+        for b in range(body.n):
+            if body.blocks[b]["cl"]:
+                continue
+            for s in body.stmts(b):
+                r = s["r"]
+                if r["k"] != "use" or s["d"].get("p"):
+                    continue
+                pl = r["a"].get("mv") or r["a"].get("cp")
+                if not pl:
+                    continue
+                key = (pl["l"], mir.norm_proj(pl.get("p")))
+                if key in frontier or (pl["l"] in hold and not pl.get("p")):
+                    if s["d"]["l"] not in hold:
+                        hold.add(s["d"]["l"])
+                        changed = True
+    return hold
+
+
+def release_sites(body, hold, seeds=(), include_cleanup=False):
+    """Blocks where a held value is dropped or moved away (drop terminator on a holder / seed
+    place, or a call that takes it by move)."""
+    out = []
+    seeds = set(seeds)
+    for b in range(body.n):
+        if body.blocks[b]["cl"] and not include_cleanup:
+            continue
+        t = body.blocks[b]["t"]
+        if t["k"] == "drop":
+            pl = t["p"]
+            if (pl["l"] in hold and not pl.get("p")) or (pl["l"], mir.norm_proj(pl.get("p"))) in seeds:
+                out.append(b)
+        elif t["k"] == "call":
+            for a in t["args"]:
+                pl = a.get("mv")
+                if pl and ((pl["l"] in hold and not pl.get("p")) or (pl["l"], mir.norm_proj(pl.get("p"))) in seeds):
+                    out.append(b)
+    return out
+
+
+def yields(body):
+    return [b for b in range(body.n) if not body.blocks[b]["cl"] and body.blocks[b]["t"]["k"] == "yield"]
